@@ -372,6 +372,21 @@ def _producer(ctx: Ctx, model, mod: str, fn: str, site: str, fi, ctor: ast.Call,
                 good = good and bool(wb) and max(c.lineno for c in wb) < v.lineno
         # reported impedances = that circuit at the same frequencies
         good = good and B == f"proj(intermediate, {ic}).get_impedances(data.get_frequencies())"
+        # every candidate owns its circuit: the returned circuit is created inside the worker (deep copy of its input),
+        # otherwise serial candidates overwrite each other's parameters and the winner's numbers describe another fit
+        ctx.instance("R8.1", "_fit_process: each candidate returns a circuit of its own")
+        own = False
+        if final is not None:
+            cname = norm(final[0][ic])
+            from ..prov import assignments as _asg
+            b = [x for x in _asg(fp.node, cname) if x[2] == "assign"]
+            own = bool(b) and all(isinstance(x[0].value, ast.Call) and dotted(x[0].value.func) in ("deepcopy", "parse_cdc") for x in b)
+        if own:
+            ctx.ok()
+        else:
+            ctx.violation("R8.1", f"{site}:shared-circuit", mod, fp.node,
+                          "_fit_process returns a circuit it did not create (no per-candidate deep copy): with several method/weight combinations run serially "
+                          "all candidates share one circuit, so the returned impedances/residuals belong to the last fit while pseudo chi-squared and parameters belong to the best one")
         # worker tuple: f and Z_exp positions
         unpw = unpack_of_param(fp.node, "args")
         caller = model.fi(mod, "fit_circuit")
